@@ -346,8 +346,8 @@ impl Feig {
                     // Retrieve the card information.
                     let tlv = data.tlv.ok_or(zvt::ZVTError::IncompleteData)?;
                     if !tlv.subs.is_empty() {
-                        let subs = &tlv.subs[0];
-                        if subs.application_id.is_some() {
+                        // A payment application anywhere in the list makes it a bank card.
+                        if tlv.subs.iter().any(|subs| subs.application_id.is_some()) {
                             card_info = Some(CardInfo::Bank);
                         } else {
                             bail!("Unknown card type")
